@@ -439,8 +439,20 @@ def check_C05(ctx, replay=None):
                             replay=replay, npol=(220, 4000), nev=(10, 30))
     if res is None:
         return
-    cases = res["cases"]
+    cases = dict(res["cases"])
     nbad = ctx.coverage.get("counterexamples", 0)
+    # policies carrying a defect: the property quantifies over every policy for which Assemble returns nil error, so a
+    # defective policy that the implementation (wrongly) accepts has its program judged as well
+    if not replay:
+        from gencases import PolicyGen as PG
+        res2 = policy_stream(ctx, "C05", ["cond", "cond", "mixed", "condlong", "degenerate"], 120 if ctx.tier == "quick" else 2000, 0,
+                             defects=["argidx", "badop", "empty_conds", "dup_name", "cond_uncond"], defect_share=1.0)
+        if res2 is not None:
+            for cid, c in res2["cases"].items():
+                cases["x" + cid] = c
+                res["meta"]["x" + cid] = res2["meta"].get(cid)
+            ctx.coverage["defective_policies_offered"] = len(res2["cases"])
+            ctx.coverage["defective_policies_accepted_by_impl"] = sum(1 for c in res2["cases"].values() if c["go"].startswith("OK"))
     judged = 0
     raws = {}
     for cid, c in cases.items():
